@@ -115,4 +115,3 @@ func IsSendOnlyChan(typ types.Type) bool {
 	c, ok := typ.(*types.Chan)
 	return ok && c.Dir() == types.SendOnly
 }
-
